@@ -213,6 +213,13 @@ class Analysis:
     # ---- refinement on a cond edge ----------------------------------------
     def refine(self, test, truth, st, frame):
         """refined state or None if the edge is infeasible"""
+        # `0 < len(x)`, `None == y`: constant on the left -> mirrored comparison with the constant on the right, so that every
+        # hook sees one spelling
+        if isinstance(test, ast.Compare) and len(test.ops) == 1 and isinstance(test.left, ast.Constant) and not isinstance(test.comparators[0], ast.Constant):
+            mirror = {ast.Lt: ast.Gt, ast.Gt: ast.Lt, ast.LtE: ast.GtE, ast.GtE: ast.LtE, ast.Eq: ast.Eq, ast.NotEq: ast.NotEq, ast.Is: ast.Is, ast.IsNot: ast.IsNot}
+            m = mirror.get(type(test.ops[0]))
+            if m is not None:
+                test = ast.copy_location(ast.Compare(left=test.comparators[0], ops=[m()], comparators=[test.left]), test)
         for h in self.refine_hooks:
             r = h(self, test, truth, st, frame)
             if r is not NotImplemented:
